@@ -4,8 +4,10 @@ import (
 	"bytes"
 	"compress/gzip"
 	"fmt"
+	"io"
 
 	"github.com/dsnet/compress/bzip2"
+	"github.com/klauspost/pgzip"
 	"github.com/klauspost/compress/zstd"
 	"github.com/ulikunitz/xz"
 )
@@ -37,6 +39,16 @@ func Compress(codec string, data []byte) ([]byte, error) {
 		if err := w.Close(); err != nil {
 			return nil, err
 		}
+	case "xz-multiblock": // one stream, many small blocks
+		cfg := xz.WriterConfig{BlockSize: 300}
+		w, err := cfg.NewWriter(&b)
+		if err != nil {
+			return nil, err
+		}
+		w.Write(data)
+		if err := w.Close(); err != nil {
+			return nil, err
+		}
 	case "xz":
 		w, err := xz.NewWriter(&b)
 		if err != nil {
@@ -59,4 +71,53 @@ func Compress(codec string, data []byte) ([]byte, error) {
 		return nil, fmt.Errorf("unknown codec %s", codec)
 	}
 	return b.Bytes(), nil
+}
+
+// SilentPrefixCuts returns the cut positions k (6 <= k < len(comp)) at which the
+// decoding library used by the toolkit reads the prefix comp[:k] to a clean EOF
+// without any error: the truncations a reader stack is most likely to accept
+// silently. The library is used here to choose hostile fault points, never as oracle.
+func SilentPrefixCuts(codec string, comp []byte) []int {
+	var out []int
+	// only the xz decoder has such prefixes inside the stream (between blocks, after the
+	// stream header); the other codecs are covered by the head/tail/sampled cuts
+	if (codec != "xz" && codec != "xz-multiblock") || len(comp) > 8000 {
+		return nil
+	}
+	for k := 6; k < len(comp); k++ {
+		if decodesCleanly(codec, comp[:k]) {
+			out = append(out, k)
+		}
+	}
+	return out
+}
+
+func decodesCleanly(codec string, data []byte) (ok bool) {
+	defer func() {
+		if recover() != nil {
+			ok = false
+		}
+	}()
+	var r io.Reader
+	var err error
+	switch codec {
+	case "gzip":
+		r, err = pgzip.NewReader(bytes.NewReader(data))
+	case "bzip2":
+		r, err = bzip2.NewReader(bytes.NewReader(data), &bzip2.ReaderConfig{})
+	case "xz", "xz-multiblock":
+		r, err = xz.NewReader(bytes.NewReader(data))
+	case "zstd":
+		var d *zstd.Decoder
+		d, err = zstd.NewReader(bytes.NewReader(data))
+		if err == nil {
+			defer d.Close()
+		}
+		r = d
+	}
+	if err != nil || r == nil {
+		return false
+	}
+	_, err = io.Copy(io.Discard, r)
+	return err == nil
 }
